@@ -197,11 +197,23 @@ pub fn run(args: &Args) {
             src.push_str(&format!("  {} = {}\n", other, if o == 4 { "\"t\"" } else { "7" }));
             sum.count("scope_with_other_suffix_local");
         }
-        src.push_str(&format!("  PRINT \"sub\"; {}\n", u));
+        // the use sits in different expression contexts: plain, argument of a built-in or of a user
+        // function (by value), inside a larger expression
+        let ctx = rng.below(5);
+        let used = match ctx {
+            0 => u.clone(),
+            1 => format!("VAL(STR$({}))", u),
+            2 => format!("({} + 0)", u),
+            3 => format!("Idn#(({}))", u),
+            _ => format!("VAL(STR$({})) + VAL(STR$({})) - {}", u, u, u),
+        };
+        sum.count(&format!("scope_use_context_{}", ctx));
+        src.push_str(&format!("  PRINT \"sub\"; {}\n", used));
         if !is_const {
             src.push_str(&format!("  {} = 2\n", u));
         }
         src.push_str("END SUB\n");
+        src.push_str("FUNCTION Idn# (N#)\n  Idn# = N#\nEND FUNCTION\n");
         evaluations += 1;
         let one_line = src.replace('\n', " | ");
         let out = match run_program(&src, &RunOpts { budget: 10_000, ..Default::default() }) {
@@ -247,6 +259,6 @@ pub fn run(args: &Args) {
     sum.write(
         &args.out,
         evaluations,
-        "family 1: 8 base names x random letter case of both spellings x suffix (none or one of % & ! # $) of both x 0-3 DEFtype statements (all five kinds, single letters and ranges around the first letter of the base, ends included, upper and lower case) x optional DIM base AS type; the program assigns 1 through the first spelling, 2 through the second and prints the first; observation (one variable / two variables / second rejected) vs Resolve.relation in Coq. Family 2: a name used inside a SUB while a global, DIM SHARED global, CONST, parameter or local DIM of that name exists, optionally after a local of the same bare name with another suffix was used in the SUB; observation (local / shared global / constant) vs Resolve.home_of. Non-trivial = distinct programs.",
+        "family 1: 8 base names x random letter case of both spellings x suffix (none or one of % & ! # $) of both x 0-3 DEFtype statements (all five kinds, single letters and ranges around the first letter of the base, ends included, upper and lower case) x optional DIM base AS type; the program assigns 1 through the first spelling, 2 through the second and prints the first; observation (one variable / two variables / second rejected) vs Resolve.relation in Coq. Family 2: a name used inside a SUB while a global, DIM SHARED global, CONST, parameter or local DIM of that name exists, optionally after a local of the same bare name with another suffix was used in the SUB, the use being plain, an argument of a built-in or of a user function, or part of a larger expression; observation (local / shared global / constant) vs Resolve.home_of. Non-trivial = distinct programs.",
     );
 }
